@@ -1,12 +1,174 @@
 package main
 
 import (
+	"flag"
 	"fmt"
-	"golang.org/x/tools/go/packages"
+	"os"
+	"sort"
+	"strings"
+	"time"
 )
 
 func main() {
-	cfg := &packages.Config{Mode: packages.NeedName | packages.NeedSyntax | packages.NeedTypes | packages.NeedTypesInfo | packages.NeedFiles | packages.NeedImports | packages.NeedDeps, Dir: "/repo", BuildFlags: []string{"-tags=verif"}}
-	pkgs, err := packages.Load(cfg, "./...")
-	fmt.Println(len(pkgs), err)
+	if len(os.Args) < 2 {
+		fmt.Fprintln(os.Stderr, "usage: govc check <property> [--tier quick|thorough] | dump <func> | list")
+		os.Exit(2)
+	}
+	defer cleanupScratch()
+	switch os.Args[1] {
+	case "check":
+		os.Exit(cmdCheck(os.Args[2:]))
+	case "dump":
+		os.Exit(cmdDump(os.Args[2:]))
+	default:
+		fmt.Fprintln(os.Stderr, "unknown command", os.Args[1])
+		os.Exit(2)
+	}
+}
+
+func hasTag(tags []string, t string) bool {
+	for _, x := range tags {
+		if x == t {
+			return true
+		}
+	}
+	return false
+}
+
+type Run struct {
+	w    *World
+	fcs  []*FnCtx
+	obls []*Obligation
+	owner map[*Obligation]*FnCtx
+}
+
+func generate(repo string) (*Run, error) {
+	w, err := loadWorld(repo)
+	if err != nil {
+		return nil, err
+	}
+	r := &Run{w: w, owner: map[*Obligation]*FnCtx{}}
+	for _, c := range w.cs.Contracts {
+		if c.Extern {
+			continue
+		}
+		site := w.funcs[c.Pkg+"::"+c.Func]
+		if site == nil {
+			// contract no longer attached to code: fails for every tagged property
+			fc := &FnCtx{w: w, qname: pkgShort(c.Pkg) + "." + c.Func, contract: c, obls: map[string]*Obligation{}}
+			ob := &Obligation{Name: fc.qname + "/contract-attached", Func: fc.qname, Kind: "contract-attached", Tags: c.Tags, Descr: "the function this contract is keyed to exists", Status: "failed", Detail: "function not found in /repo"}
+			ob.Queries = nil
+			r.obls = append(r.obls, ob)
+			r.owner[ob] = fc
+			r.fcs = append(r.fcs, fc)
+			continue
+		}
+		c.Attached = true
+		fc := w.newFnCtx(site, c)
+		fc.verify()
+		r.fcs = append(r.fcs, fc)
+		for _, n := range fc.oblOrder {
+			ob := fc.obls[n]
+			r.obls = append(r.obls, ob)
+			r.owner[ob] = fc
+		}
+	}
+	return r, nil
+}
+
+func cmdDump(args []string) int {
+	fs := flag.NewFlagSet("dump", flag.ExitOnError)
+	repo := fs.String("repo", "/repo", "repository")
+	which := fs.String("ob", "", "obligation substring whose query to print")
+	fs.Parse(args)
+	r, err := generate(*repo)
+	if err != nil {
+		fmt.Fprintln(os.Stderr, err)
+		return 2
+	}
+	for _, sf := range r.w.specList {
+		if sf.err != "" {
+			fmt.Printf("SPEC ERROR %s: %s\n", sf.smtName, sf.err)
+		}
+	}
+	for _, fc := range r.fcs {
+		if len(fs.Args()) > 0 && !strings.Contains(fc.qname, fs.Arg(0)) {
+			continue
+		}
+		fmt.Printf("== %s: %d obligations, errors=%d\n", fc.qname, len(fc.oblOrder), len(fc.errors))
+		for _, e := range fc.errors {
+			fmt.Println("   ERROR:", e)
+		}
+		for _, n := range fc.notes {
+			fmt.Println("   note:", n)
+		}
+		for _, u := range sortedKeys(fc.unmodelled) {
+			fmt.Println("   unmodelled:", u)
+		}
+		for _, n := range fc.oblOrder {
+			ob := fc.obls[n]
+			fmt.Printf("   %s [%s] paths=%d  %s\n", ob.Name, strings.Join(ob.Tags, ","), len(ob.Queries), ob.Descr)
+			if *which != "" && strings.Contains(ob.Name, *which) && len(ob.Queries) > 0 {
+				fmt.Println(fc.queryText(ob.Queries[0]))
+			}
+		}
+	}
+	return 0
+}
+
+func cmdCheck(args []string) int {
+	fs := flag.NewFlagSet("check", flag.ExitOnError)
+	repo := fs.String("repo", "/repo", "repository")
+	tier := fs.String("tier", "quick", "quick|thorough")
+	all := fs.Bool("all", false, "run every obligation regardless of tag")
+	verbose := fs.Bool("v", false, "verbose")
+	var prop string
+	if len(args) > 0 && !strings.HasPrefix(args[0], "-") {
+		prop = args[0]
+		args = args[1:]
+	}
+	fs.Parse(args)
+	start := time.Now()
+	r, err := generate(*repo)
+	if err != nil {
+		fmt.Fprintln(os.Stderr, err)
+		return 2
+	}
+	timeout := 10 * time.Second
+	if *tier == "thorough" {
+		timeout = 60 * time.Second
+	}
+	var sel []*Obligation
+	for _, ob := range r.obls {
+		if *all || hasTag(ob.Tags, prop) {
+			sel = append(sel, ob)
+		}
+	}
+	runParallel(len(sel), 6, func(i int) {
+		ob := sel[i]
+		if ob.Status != "" {
+			return
+		}
+		r.owner[ob].solveObligation(ob, timeout)
+	})
+	sort.SliceStable(sel, func(i, j int) bool { return sel[i].Name < sel[j].Name })
+	failed := 0
+	for _, ob := range sel {
+		if ob.Status != "discharged" {
+			failed++
+			fmt.Printf("FAILED     %s  %s\n           %s\n", ob.Name, ob.Descr, strings.ReplaceAll(ob.Detail, "\n", "\n           "))
+		} else if *verbose {
+			fmt.Printf("discharged %s (%s, %d ms)\n", ob.Name, ob.Solver, ob.Ms)
+		}
+	}
+	for _, fc := range r.fcs {
+		for _, e := range fc.errors {
+			fmt.Printf("GENERATOR-ERROR %s: %s\n", fc.qname, e)
+		}
+	}
+	fmt.Printf("%s: %d obligations, %d discharged, %d failed, %.1fs\n", prop, len(sel), len(sel)-failed, failed, time.Since(start).Seconds())
+	if failed > 0 {
+		return 1
+	}
+	return 0
 }
